@@ -59,7 +59,7 @@ func tokenValidator(c *Ctx, rule string) *ssa.Function {
 }
 
 func c06(c *Ctx) {
-	p, r := c.P, c.R
+	r := c.R
 	r.Rule("R-C06.1", "in the token validator the authorising call is cut by: success of LoadServerLedActivationToken for the ID derived from both token halves; non-nil, non-zero creation time; NOT(now > creation + opts.WithMaximumServerLedActivationTokenLifetime); success of storage.Remove of the loaded entry; the existing-record test (record for the request's key ID is nil)")
 	r.Rule("R-C06.2", "Remove of the loaded token precedes authorisation and its failure edge reaches only error returns (part of R-C06.1's Remove guard) ")
 	r.Rule("R-C06.3", "in CreateServerLedActivationToken the stored entry receives only {CreationTime<-timestamppb.Now, State<-opts.WithState, Id<-derived ID}; the HMAC key half is used only as hmac.New key, as random-fill target and inside the marshalled token that is returned; the token nonce object is never stored")
@@ -68,138 +68,10 @@ func c06(c *Ctx) {
 	r.Rule("R-C06.6", "creator and validator derive the storage ID from (nonce, hmac key) by the same call form")
 	r.NotDecided = append(r.NotDecided, "single use under concurrent fetches (needs storage transactions)", "HMAC properties", "time passing")
 
-	T := tokenValidator(c, "R-C06.1")
-	if T == nil {
+	vform, ok := c06Validator(c)
+	if !ok {
 		return
 	}
-	tname := core.FuncName(T)
-	info := paramOfType(T, typesPkg, "FetchNodeCredentialsInfo")
-	tn := paramOfType(T, typesPkg, "ServerLedActivationTokenNonce")
-	var auth []*ssa.Call
-	for _, ci := range core.AllCalls(T) {
-		call, ok := ci.(*ssa.Call)
-		if !ok {
-			continue
-		}
-		cal := call.Common().StaticCallee()
-		if cal != nil && cal != T && core.InModule(cal) && cal.Signature.Results().Len() == 2 &&
-			namedType(cal.Signature.Results().At(0).Type(), typesPkg, "NodeInformation") && paramOfType(cal, typesPkg, "FetchNodeCredentialsInfo") != nil {
-			auth = append(auth, call)
-		}
-	}
-	loads := callsNamed(T, typesPkg+".LoadServerLedActivationToken")
-	if len(auth) == 0 || len(loads) != 1 {
-		r.Unk("R-C06.1", tname+" anchors", p.Pos(T.Pos()), fmt.Sprintf("authorising calls=%d, token loads=%d (want >=1, 1)", len(auth), len(loads)))
-		return
-	}
-	load := loads[0]
-	entry := extractOf(load, 0)
-	// ID derivation in the validator
-	vform, vkey, vnonce, vok := tokenIdForm(load.Call.Args[2])
-	r.Check(vok && vkey.Root == tn && vkey.HasFields("HmacKeyBytes") && vnonce.Root == tn && vnonce.HasFields("Nonce"),
-		"R-C06.1", tname+" token-id derivation", p.Pos(load.Pos()), "ID = "+vform+" over the presented token", "token entry is looked up under an ID not derived from both halves of the presented token: "+vform)
-
-	var optsV ssa.Value
-	for _, oc := range callsNamed(T, mod+".GetOpts") {
-		optsV = extractOf(oc, 0)
-	}
-	_ = optsV
-	isNow := func(t core.TimeForm) bool { return t.Base == "now" && len(t.Terms) == 0 }
-	gs := []core.Guard{
-		core.ErrNil("LoadServerLedActivationToken", func(x *ssa.Call) bool { return x == load }),
-		core.NilTest("entry.CreationTime non-nil", core.FieldOf(entry, "CreationTime"), false),
-		{Name: "Not(entry.CreationTime.IsZero())", Match: func(cond ssa.Value) (int, bool) {
-			cc, ok := cond.(*ssa.Call)
-			if !ok || core.CalleeName(cc.Common()) != "(time.Time).IsZero" {
-				return 0, false
-			}
-			f := core.TimeFormOf(cc.Call.Args[0])
-			if f.Base == "ts:CreationTime" && f.Root == entry && len(f.Terms) == 0 {
-				return 1, true
-			}
-			return 0, false
-		}},
-		core.TimeNotGreater("now > entry.CreationTime+WithMaximumServerLedActivationTokenLifetime", isNow, func(t core.TimeForm) bool {
-			return t.Base == "ts:CreationTime" && t.Root == entry && len(t.Terms) == 1 && t.Terms[0] == "WithMaximumServerLedActivationTokenLifetime"
-		}),
-		core.ErrNil("storage.Remove(entry)", func(x *ssa.Call) bool {
-			eff, ok := core.StorageMethod(x.Common())
-			return ok && eff == core.EffRemove && core.Strip(x.Common().Args[1]) == entry
-		}),
-		core.NilTest("existing record for key ID of the request is nil", func(pp core.Path) bool {
-			if len(pp.Fields) != 0 {
-				return false
-			}
-			lc, idx := core.CallResult(pp.Root)
-			if lc == nil || idx != 0 || core.CalleeName(lc.Common()) != typesPkg+".LoadNodeInformation" {
-				return false
-			}
-			idc, i0 := core.CallResult(lc.Call.Args[2])
-			if idc == nil || i0 != 0 || core.CalleeName(idc.Common()) != mod+".KeyIdFromPkix" {
-				return false
-			}
-			ap := core.PathOf(idc.Call.Args[0])
-			return ap.Root == info && ap.HasFields("CertificatePublicKeyPkix")
-		}, true),
-	}
-	for i, ac := range auth {
-		passes := false
-		for _, arg := range ac.Call.Args {
-			if core.Strip(arg) == info {
-				passes = true
-			}
-		}
-		r.Check(passes, "R-C06.1", fmt.Sprintf("%s authorise-call#%d argument", tname, i), p.Pos(ac.Pos()), "authorises the request info it validated", "authorises something other than the request info parameter")
-		for _, g := range gs {
-			res := core.CutReach(p, T, g, ac.Block())
-			r.CutOb(p, "R-C06.1", fmt.Sprintf("%s authorise-call#%d guard=%s", tname, i, g.Name), p.Pos(ac.Pos()), res, g)
-		}
-	}
-	// the time tests in the validator: exactly IsZero + expiry, one clock reading used in expiry
-	nrel := 0
-	for _, b := range T.Blocks {
-		for _, in := range b.Instrs {
-			if cc, ok := in.(*ssa.Call); ok {
-				if _, ok := core.TimeRelOf(cc); ok {
-					nrel++
-				}
-			}
-		}
-	}
-	r.Check(nrel == 1, "R-C06.1", tname+" number of time comparisons", p.Pos(T.Pos()), "exactly the expiry comparison", fmt.Sprintf("%d time comparisons; only the expiry test is expected", nrel))
-
-	// R-C06.2: failure edge of Remove reaches only error returns
-	for _, b := range T.Blocks {
-		for _, in := range b.Instrs {
-			call, ok := in.(*ssa.Call)
-			if !ok {
-				continue
-			}
-			if eff, ok := core.StorageMethod(call.Common()); !ok || eff != core.EffRemove {
-				continue
-			}
-			okT, _, fail, _ := errTestEdges(call)
-			if !okT {
-				r.Bad("R-C06.2", tname+" Remove error test", p.Pos(call.Pos()), "the error of storage.Remove is not tested")
-				continue
-			}
-			bad := ""
-			for x := range reachFrom(fail, nil) {
-				if ret, ok := x.Instrs[len(x.Instrs)-1].(*ssa.Return); ok && core.ReturnErrKind(ret, 1) != core.ErrNonNil {
-					bad = p.Pos(ret.Pos())
-				}
-				for _, in2 := range x.Instrs {
-					for _, ac := range auth {
-						if in2 == ac {
-							bad = "authorising call at " + p.Pos(ac.Pos())
-						}
-					}
-				}
-			}
-			r.Check(bad == "", "R-C06.2", tname+" Remove failure edge", p.Pos(call.Pos()), "failure of Remove reaches only error returns", "after a failed Remove the function can still reach "+bad)
-		}
-	}
-
 	c06Create(c, vform)
 	c06Load(c)
 	aadAgreement(c, "R-C06.5", "(*ServerLedActivationToken).Store", "LoadServerLedActivationToken", "ServerLedActivationToken")
@@ -357,4 +229,144 @@ func c06Load(c *Ctx) {
 		res = core.CutReach(p, fn, gSealed, ret.Block())
 		r.CutOb(p, "R-C06.4", fmt.Sprintf("%s success-return#%d sealed-time-required", name, i), p.Pos(ret.Pos()), res, gSealed)
 	}
+}
+
+// c06Validator evaluates the token-validator rules (R-C06.1, R-C06.2); it is
+// shared with C01, whose clause (b) depends on them. Returns the ID derivation
+// form used by the validator.
+func c06Validator(c *Ctx) (string, bool) {
+	p, r := c.P, c.R
+	T := tokenValidator(c, "R-C06.1")
+	if T == nil {
+		return "", false
+	}
+	tname := core.FuncName(T)
+	info := paramOfType(T, typesPkg, "FetchNodeCredentialsInfo")
+	tn := paramOfType(T, typesPkg, "ServerLedActivationTokenNonce")
+	var auth []*ssa.Call
+	for _, ci := range core.AllCalls(T) {
+		call, ok := ci.(*ssa.Call)
+		if !ok {
+			continue
+		}
+		cal := call.Common().StaticCallee()
+		if cal != nil && cal != T && core.InModule(cal) && cal.Signature.Results().Len() == 2 &&
+			namedType(cal.Signature.Results().At(0).Type(), typesPkg, "NodeInformation") && paramOfType(cal, typesPkg, "FetchNodeCredentialsInfo") != nil {
+			auth = append(auth, call)
+		}
+	}
+	loads := callsNamed(T, typesPkg+".LoadServerLedActivationToken")
+	if len(auth) == 0 || len(loads) != 1 {
+		r.Unk("R-C06.1", tname+" anchors", p.Pos(T.Pos()), fmt.Sprintf("authorising calls=%d, token loads=%d (want >=1, 1)", len(auth), len(loads)))
+		return "", false
+	}
+	load := loads[0]
+	entry := extractOf(load, 0)
+	// ID derivation in the validator
+	vform, vkey, vnonce, vok := tokenIdForm(load.Call.Args[2])
+	r.Check(vok && vkey.Root == tn && vkey.HasFields("HmacKeyBytes") && vnonce.Root == tn && vnonce.HasFields("Nonce"),
+		"R-C06.1", tname+" token-id derivation", p.Pos(load.Pos()), "ID = "+vform+" over the presented token", "token entry is looked up under an ID not derived from both halves of the presented token: "+vform)
+
+	var optsV ssa.Value
+	for _, oc := range callsNamed(T, mod+".GetOpts") {
+		optsV = extractOf(oc, 0)
+	}
+	_ = optsV
+	isNow := func(t core.TimeForm) bool { return t.Base == "now" && len(t.Terms) == 0 }
+	gs := []core.Guard{
+		core.ErrNil("LoadServerLedActivationToken", func(x *ssa.Call) bool { return x == load }),
+		core.NilTest("entry.CreationTime non-nil", core.FieldOf(entry, "CreationTime"), false),
+		{Name: "Not(entry.CreationTime.IsZero())", Match: func(cond ssa.Value) (int, bool) {
+			cc, ok := cond.(*ssa.Call)
+			if !ok || core.CalleeName(cc.Common()) != "(time.Time).IsZero" {
+				return 0, false
+			}
+			f := core.TimeFormOf(cc.Call.Args[0])
+			if f.Base == "ts:CreationTime" && f.Root == entry && len(f.Terms) == 0 {
+				return 1, true
+			}
+			return 0, false
+		}},
+		core.TimeNotGreater("now > entry.CreationTime+WithMaximumServerLedActivationTokenLifetime", isNow, func(t core.TimeForm) bool {
+			return t.Base == "ts:CreationTime" && t.Root == entry && len(t.Terms) == 1 && t.Terms[0] == "WithMaximumServerLedActivationTokenLifetime"
+		}),
+		core.ErrNil("storage.Remove(entry)", func(x *ssa.Call) bool {
+			eff, ok := core.StorageMethod(x.Common())
+			return ok && eff == core.EffRemove && core.Strip(x.Common().Args[1]) == entry
+		}),
+		core.NilTest("existing record for key ID of the request is nil", func(pp core.Path) bool {
+			if len(pp.Fields) != 0 {
+				return false
+			}
+			lc, idx := core.CallResult(pp.Root)
+			if lc == nil || idx != 0 || core.CalleeName(lc.Common()) != typesPkg+".LoadNodeInformation" {
+				return false
+			}
+			idc, i0 := core.CallResult(lc.Call.Args[2])
+			if idc == nil || i0 != 0 || core.CalleeName(idc.Common()) != mod+".KeyIdFromPkix" {
+				return false
+			}
+			ap := core.PathOf(idc.Call.Args[0])
+			return ap.Root == info && ap.HasFields("CertificatePublicKeyPkix")
+		}, true),
+	}
+	for i, ac := range auth {
+		passes := false
+		for _, arg := range ac.Call.Args {
+			if core.Strip(arg) == info {
+				passes = true
+			}
+		}
+		r.Check(passes, "R-C06.1", fmt.Sprintf("%s authorise-call#%d argument", tname, i), p.Pos(ac.Pos()), "authorises the request info it validated", "authorises something other than the request info parameter")
+		for _, g := range gs {
+			res := core.CutReach(p, T, g, ac.Block())
+			r.CutOb(p, "R-C06.1", fmt.Sprintf("%s authorise-call#%d guard=%s", tname, i, g.Name), p.Pos(ac.Pos()), res, g)
+		}
+	}
+	// the time tests in the validator: exactly IsZero + expiry, one clock reading used in expiry
+	nrel := 0
+	for _, b := range T.Blocks {
+		for _, in := range b.Instrs {
+			if cc, ok := in.(*ssa.Call); ok {
+				if _, ok := core.TimeRelOf(cc); ok {
+					nrel++
+				}
+			}
+		}
+	}
+	r.Check(nrel == 1, "R-C06.1", tname+" number of time comparisons", p.Pos(T.Pos()), "exactly the expiry comparison", fmt.Sprintf("%d time comparisons; only the expiry test is expected", nrel))
+
+	// R-C06.2: failure edge of Remove reaches only error returns
+	for _, b := range T.Blocks {
+		for _, in := range b.Instrs {
+			call, ok := in.(*ssa.Call)
+			if !ok {
+				continue
+			}
+			if eff, ok := core.StorageMethod(call.Common()); !ok || eff != core.EffRemove {
+				continue
+			}
+			okT, _, fail, _ := errTestEdges(call)
+			if !okT {
+				r.Bad("R-C06.2", tname+" Remove error test", p.Pos(call.Pos()), "the error of storage.Remove is not tested")
+				continue
+			}
+			bad := ""
+			for x := range reachFrom(fail, nil) {
+				if ret, ok := x.Instrs[len(x.Instrs)-1].(*ssa.Return); ok && core.ReturnErrKind(ret, 1) != core.ErrNonNil {
+					bad = p.Pos(ret.Pos())
+				}
+				for _, in2 := range x.Instrs {
+					for _, ac := range auth {
+						if in2 == ac {
+							bad = "authorising call at " + p.Pos(ac.Pos())
+						}
+					}
+				}
+			}
+			r.Check(bad == "", "R-C06.2", tname+" Remove failure edge", p.Pos(call.Pos()), "failure of Remove reaches only error returns", "after a failed Remove the function can still reach "+bad)
+		}
+	}
+
+	return vform, true
 }
